@@ -262,7 +262,8 @@ def tasks(tier):
         for p in range(1, (gmax if not cx else gmax - 1) + 1):
             ts.append(lev_generic_task(p, cx))
     ts += [lev_raise_task(False), lev_raise_task(True)]
-    for M in range(1, smax + 1):
+    for M in range(1, min(smax, 3) + 1):
+        # complex 5x5 (M = 4) gives no result within 150 s in Q(19 symbols): not attempted
         ts.append(hermtoep_task(M, False))
     for M in range(1, smax):
         ts.append(toeplitz_task(M))
